@@ -19,13 +19,21 @@ if ! timeout 7200 make -j16 > .make.log 2>&1; then
 fi
 cd ..
 mkdir -p bin ocaml/_build
-if [ ! -x bin/mrun ] || [ coq/Run/model.ml -nt bin/mrun ] || [ ocaml/driver.ml -nt bin/mrun ]; then
+# reference runner: ExtrOcamlBasic only (Z, positive, nat stay Coq inductives) - slow, used for cross-checks
+if [ ! -x bin/mrun_ref ] || [ coq/Run/model.ml -nt bin/mrun_ref ] || [ ocaml/driver.ml -nt bin/mrun_ref ]; then
   cp coq/Run/model.ml coq/Run/model.mli ocaml/driver.ml ocaml/_build/
-  (cd ocaml/_build && ocamlfind ocamlopt -O3 -unboxed-types 2>/dev/null -w -a model.mli model.ml driver.ml -o ../../bin/mrun.new \
-     || ocamlfind ocamlopt -w -a model.mli model.ml driver.ml -o ../../bin/mrun.new)
+  (cd ocaml/_build && ocamlfind ocamlopt -w -a model.mli model.ml driver.ml -o ../../bin/mrun_ref.new)
+  mv bin/mrun_ref.new bin/mrun_ref
+fi
+# fast runner: same dispatcher extracted with the standard library's ExtrOcamlZBigInt (Zarith integers)
+if [ ! -x bin/mrun ] || [ coq/Run/modelfast.ml -nt bin/mrun ] || [ ocaml/driverfast.ml -nt bin/mrun ]; then
+  cp coq/Run/modelfast.ml coq/Run/modelfast.mli ocaml/driverfast.ml ocaml/_build/
+  (cd ocaml/_build && ocamlfind ocamlopt -package zarith -linkpkg -w -a modelfast.mli modelfast.ml driverfast.ml -o ../../bin/mrun.new)
   mv bin/mrun.new bin/mrun
 fi
 # self-test: the runner answers a known request
-out=$(echo "1502 3 5 7 5 2 5 7 2 7 5" | bin/mrun)
-[ "$out" = "0 3 7 5 7 3 7 5 7" ] || { echo "mrun self-test failed: $out"; exit 1; }
+for b in bin/mrun bin/mrun_ref; do
+  out=$(echo "1502 3 5 7 5 2 5 7 2 7 5" | $b)
+  [ "$out" = "0 3 7 5 7 3 7 5 7" ] || { echo "$b self-test failed: $out"; exit 1; }
+done
 exit 0
